@@ -121,6 +121,25 @@ def build_and_run(job):
     elif o["G"] == "fd":
         G = linop.FiniteDifference([2, 1], axes=[0])
         gshape = G.oshape
+    img = bool(job.get("img"))
+    ish = [2, 1]
+    if img:
+        # the unknown is a 2 x 2 IMAGE whose columns are two copies of the 2-unknown problem (all operators act column-wise), so
+        # every column of the solution must be the minimiser of the documented objective - and the caller holds the image in
+        # column-major order, which no reshape can flatten without a copy
+        ish = [2, 2]
+        Aop = linop.MatMul(ish, A)
+        y_col, y = y, np.hstack([y, y])
+        if zz is not None:
+            zz_col, zz = zz, np.hstack([zz, zz])
+        if o["G"] == "dense":
+            G = linop.MatMul(ish, Gd)
+            gshape = [2, 2]
+        elif o["G"] == "fd":
+            G = linop.FiniteDifference(ish, axes=[0])
+            gshape = G.oshape
+        else:
+            gshape = [2, 2]
     pg = None
     if o["proxg"] == "l1":
         pg = prox.L1Reg(gshape, LAMG)
@@ -167,6 +186,18 @@ def build_and_run(job):
     if job.get("x32"):
         # warm start whose dtype differs from the data's (float32 / complex64): the solution must still be written into it
         kw.update(x=(np.array([[0.3], [-0.7]]) + (0.1j if cplx else 0)).astype(np.complex64 if cplx else np.float32))
+    if img:
+        x0i = np.hstack([np.array([[0.3], [-0.7]])] * 2) + (0.1j if cplx else 0)
+        kw["x"] = np.asfortranarray((x0i if variant % 2 else 0 * x0i).astype(y.dtype))
+        if "P" in kw:
+            kw["P"] = linop.Multiply(ish, 1.0 / np.real(np.diag(A.conj().T @ A + lam * np.eye(2))).reshape(2, 1))
+    if job.get("xview"):
+        # warm start that is a plane of a larger array the caller owns (a 2-D view that no reshape can flatten without a copy):
+        # the solution must be written into THAT memory
+        vol = np.zeros((4, 2), dtype=y.dtype)
+        xv = vol[::2, 1:2]
+        xv[...] = (np.array([[0.3], [-0.7]]) + (0.1j if cplx else 0)).astype(y.dtype)
+        kw.update(x=xv)
     np.random.seed(seed)
     y_before = y.copy()
     res = {"opt": o, "variant": variant, "cplx": cplx, "eff": eff}
@@ -195,7 +226,14 @@ def build_and_run(job):
             return res
     res["y_unchanged"] = bool(np.array_equal(y, y_before))
     res["x"] = [complex(v) for v in np.asarray(x).ravel()]
-    res["f"] = objective(A, y, zz, lam, o["proxg"], Gm, np.asarray(x))
+    if img:
+        if np.shape(x) != (2, 2):
+            res["raised"] = "returned shape %s for a [2, 2] unknown" % (np.shape(x),)
+            return res
+        y, zz = y_col, (zz_col if zz is not None else None)
+        res["f"] = max(objective(A, y, zz, lam, o["proxg"], Gm, np.asarray(x)[:, j].copy()) for j in range(2))
+    else:
+        res["f"] = objective(A, y, zz, lam, o["proxg"], Gm, np.asarray(x))
     res["returned_is_app_x"] = bool(x is ap.x)
     held = getattr(ap.alg, "x", None)
     res["returned_equals_alg_x"] = bool(held is None or (np.shape(held) == np.shape(x) and np.allclose(np.asarray(held), np.asarray(x), rtol=1e-5, atol=1e-6)))
@@ -249,6 +287,8 @@ def run(ctx):
         if st["phase"] == "ready":
             jobs.append({"opt": o, "variant": 0, "cplx": o["proxg"] in ("None", "l2") and (len(jobs) % 2 == 0), "seed": ctx.seed, "phase": st["phase"], "x32": True})
             jobs.append({"opt": o, "variant": 1, "cplx": False, "seed": ctx.seed + 1, "phase": st["phase"], "pbar": True})
+            jobs.append({"opt": o, "variant": 1, "cplx": o["proxg"] in ("None", "l2") and (len(jobs) % 2 == 1), "seed": ctx.seed + 4, "phase": st["phase"], "xview": True})
+            jobs.append({"opt": o, "variant": len(jobs) % 4, "cplx": o["proxg"] in ("None", "l2") and (len(jobs) % 3 == 1), "seed": ctx.seed + 5, "phase": st["phase"], "img": True})
             jobs.append({"opt": o, "variant": 0, "cplx": False, "seed": ctx.seed + 3, "phase": st["phase"], "positional": True})
             cx = o["proxg"] in ("None", "l2")
             jobs.append({"opt": o, "variant": len(jobs) % 2, "cplx": cx, "seed": ctx.seed + 2, "phase": st["phase"], "aop": "fft" if cx else ["identity", "circshift"][len(jobs) % 2]})
@@ -257,7 +297,7 @@ def run(ctx):
     by_problem = {}
     for job, res in zip(jobs, results):
         o = job["opt"]
-        key = {"solver": o["solver"], "lamda": o["lamda"], "z": o["z"], "proxg": o["proxg"], "G": o["G"], "variant": job["variant"], "complex": job["cplx"], "x32": bool(job.get("x32")), "pbar": bool(job.get("pbar")), "aop": job.get("aop", "matmul"), "positional": bool(job.get("positional"))}
+        key = {"solver": o["solver"], "lamda": o["lamda"], "z": o["z"], "proxg": o["proxg"], "G": o["G"], "variant": job["variant"], "complex": job["cplx"], "x32": bool(job.get("x32")), "xview": bool(job.get("xview")), "img": bool(job.get("img")), "pbar": bool(job.get("pbar")), "aop": job.get("aop", "matmul"), "positional": bool(job.get("positional"))}
         r.traces += 1
         r.evaluations += 1
         r.nontrivial += 1
